@@ -13,13 +13,33 @@ package main
 //     value, x%c, x&c, x>>c, len(), make([]T, n), s[a:b] (length of the result), []byte(s),
 //     append, copy, the value ranges of the integer types (a byte indexes a [256]T safely),
 //   - a successful earlier index/slice operation (the program would have panicked otherwise),
-//   - return-interval summaries of callees in the analysed module and a short table of
-//     standard-library results (utf8.RuneLen, utf8.DecodeRune, ...).
+//   - return summaries of callees in the analysed module: an interval per result and, per string /
+//     slice parameter, the largest "result - len(parameter)" (n <= len(str) for a rune scanner); a
+//     call through an interface declared in the module uses the join over every concrete method of
+//     the loaded program with that name and signature (none outside the module, else nothing);
+//   - a short table of standard-library results (utf8.RuneLen, utf8.DecodeRune, strings.Index,
+//     io.Reader.Read, ...) and of result lengths (strconv.FormatInt, time.Time.String, fmt.Sprintf
+//     with a constant format), string concatenation, negation,
+//   - exact sums: z = x + y and z = x - y are re-applied at every branch and after every successful
+//     index operation that their definition dominates (an SSA value is immutable, so a bound learnt
+//     later applies to the earlier sum), and two sums that share an addend are related:
+//     s1 = p1 + q, s2 = p2 + q  =>  s1 - s2 = p1 - p2  (start+n <= end  =>  start <= end-n),
+//   - v.(T) evaluated twice on one interface value is one value.
 // Worlds reaching a join that is not a loop head are kept apart (bounded), so that a guard
 // followed by `break` and the loop's own exit condition are not confused (the shape of
-// RangeMap.Decode); at loop heads worlds are joined and widened. Loads of struct fields through
-// a pointer are identified across instructions only when no function of the loaded module
-// assigns that field or takes its address outside a composite literal.
+// RangeMap.Decode); at loop heads worlds are joined and widened, and after the fixpoint a fixed
+// number of narrowing passes (plain joins, no widening) recovers bounds widening gave up. Loads of
+// struct fields through a pointer are identified across instructions only when no function of the
+// loaded module assigns that field or takes its address outside a composite literal, or every
+// such store goes through a different enclosing object type (chains of by-value fields: a store to
+// nl.ChildExpressions with nl *Lag cannot touch the NaryExpression embedded in a *Locate).
+//
+// Two modes. Default: int/uint/int64/uint64 index arithmetic is assumed not to wrap (byte kernels:
+// every quantity is a length). Strict (BoundsOpts.Strict, used where the operands are client-chosen
+// 64-bit integers): x+c, x-c, x+y, x-y, -x, x*c and uint64->int64 conversions relate the result to
+// the operands only in worlds where the operation provably does not overflow (operands bounded by
+// constants, lengths <= 2^40, or each other: i < n  =>  i+1 does not wrap); otherwise the result is
+// an unknown value.
 //
 // Obligation (one per distinct source expression per function, all of its worlds must agree):
 //   x[i]      : 0 <= i < len(x)
@@ -28,8 +48,10 @@ package main
 //               kernels this engine is used on must not read beyond len)
 // Whatever cannot be derived is reported; nothing from the analysed repository is executed.
 //
-// Assumptions (recorded in the evidence): int/uint/int64/uint64 arithmetic on indices does not
-// wrap around (lengths are far below 2^62); narrower integer arithmetic is treated as opaque.
+// Assumptions (recorded in the evidence): in the default mode int/uint/int64/uint64 arithmetic on
+// indices does not wrap around (lengths are far below 2^62); in strict mode no string or slice is
+// longer than 2^40 elements; narrower integer arithmetic is treated as opaque; standard-library
+// contracts are taken as stated.
 
 import (
 	"fmt"
@@ -37,6 +59,7 @@ import (
 	"go/constant"
 	"go/token"
 	"go/types"
+	"math"
 	"os"
 	"sort"
 	"strings"
@@ -48,6 +71,10 @@ import (
 const bndInf = int64(1) << 50
 const bndBig = int64(1) << 40
 const bndMaxWorlds = 8
+
+// bndLenMax: strict mode's bound on the length of any string or slice (2^40 elements: far beyond
+// max_allowed_packet and addressable memory of a query; recorded as an assumption).
+const bndLenMax = int64(1) << 40
 
 // bndExceptions: operations that are in range for a reason outside this (intraprocedural,
 // table-blind) analysis. Keyed by FuncName + "/" + source expression; one symbol each.
@@ -215,6 +242,13 @@ type bndEngine struct {
 	scanned   bool
 	debug     bool
 	prog      *ssa.Program // own lazily-built SSA program (only the packages that are needed)
+	// strict: machine-integer semantics. Arithmetic on int/int64/uint/uint64 values relates the
+	// result to its operands only where the operation provably does not wrap around (operands
+	// bounded by lengths / constants / each other); lengths are bounded by bndLenMax. Used where the
+	// operands are attacker-chosen 64-bit integers (SQL function arguments), not lengths.
+	strict    bool
+	mutChains map[*types.Var][][]*types.Var // last field -> by-value selector chains that are stored to / address-taken
+	impls     map[string][]*ssa.Function    // interface method -> module implementations (nil entry: not closed)
 }
 
 // ssaFunc returns the SSA form of fn, building only fn's package (whole-engine loads would
@@ -223,18 +257,30 @@ func (e *bndEngine) ssaFunc(fn *types.Func) *ssa.Function {
 	if e.p.ssaProg != nil {
 		return e.p.SSAFunc(fn)
 	}
-	if e.prog == nil {
-		e.prog, _ = ssautil.AllPackages(e.p.Roots, ssa.InstantiateGenerics)
-	}
+	prog := e.ssaProgram()
 	if fn.Pkg() == nil {
 		return nil
 	}
-	sp := e.prog.Package(fn.Pkg())
+	sp := prog.Package(fn.Pkg())
 	if sp == nil {
 		return nil
 	}
 	sp.Build()
-	return e.prog.FuncValue(fn)
+	return prog.FuncValue(fn)
+}
+
+// bndProgs: the lazily created SSA program per loaded program (shared by the engine modes).
+var bndProgs = map[*Prog]*ssa.Program{}
+
+func (e *bndEngine) ssaProgram() *ssa.Program {
+	if e.p.ssaProg != nil {
+		return e.p.ssaProg
+	}
+	if bndProgs[e.p] == nil {
+		bndProgs[e.p], _ = ssautil.AllPackages(e.p.Roots, ssa.InstantiateGenerics)
+	}
+	e.prog = bndProgs[e.p]
+	return e.prog
 }
 
 // moduleFunc: the callee belongs to the analysed module (its body may be summarised); its package
@@ -251,15 +297,24 @@ func (e *bndEngine) moduleFunc(f *ssa.Function) bool {
 	return len(f.Blocks) > 0
 }
 
-var bndEngines = map[*Prog]*bndEngine{}
+type bndEngineKey struct {
+	p      *Prog
+	strict bool
+}
 
-func bndEngineFor(p *Prog) *bndEngine {
-	if e := bndEngines[p]; e != nil {
+var bndEngines = map[bndEngineKey]*bndEngine{}
+
+func bndEngineFor(p *Prog) *bndEngine { return bndEngineForMode(p, false) }
+
+func bndEngineForMode(p *Prog, strict bool) *bndEngine {
+	k := bndEngineKey{p, strict}
+	if e := bndEngines[k]; e != nil {
 		return e
 	}
 	e := &bndEngine{p: p, results: map[*ssa.Function]*bndAn{}, busy: map[*ssa.Function]bool{},
-		mutFields: map[*types.Var]bool{}, mutStruct: map[*types.TypeName]bool{}, debug: os.Getenv("VCHK_BND_DEBUG") != ""}
-	bndEngines[p] = e
+		mutFields: map[*types.Var]bool{}, mutStruct: map[*types.TypeName]bool{}, debug: os.Getenv("VCHK_BND_DEBUG") != "",
+		strict: strict, mutChains: map[*types.Var][][]*types.Var{}, impls: map[string][]*ssa.Function{}}
+	bndEngines[k] = e
 	return e
 }
 
@@ -284,11 +339,19 @@ func (e *bndEngine) scanMutations() {
 			}
 			return nil
 		}
-		markLHS := func(x ast.Expr) {
-			x = ast.Unparen(x)
+		markField := func(x ast.Expr) {
 			if v := fieldOf(x); v != nil {
 				e.mutFields[v] = true
+				ch := bndSelChain(info, x)
+				if len(ch) == 0 || ch[len(ch)-1] != v {
+					ch = []*types.Var{v}
+				}
+				e.mutChains[v] = append(e.mutChains[v], ch)
 			}
+		}
+		markLHS := func(x ast.Expr) {
+			x = ast.Unparen(x)
+			markField(x)
 			switch x.(type) {
 			case *ast.StarExpr, *ast.IndexExpr, *ast.SelectorExpr:
 				if tv, ok := info.Types[x]; ok && tv.Type != nil {
@@ -313,9 +376,7 @@ func (e *bndEngine) scanMutations() {
 					markLHS(x.X)
 				case *ast.UnaryExpr:
 					if x.Op == token.AND {
-						if v := fieldOf(x.X); v != nil {
-							e.mutFields[v] = true
-						}
+						markField(x.X)
 					}
 				case *ast.RangeStmt:
 					if x.Tok == token.ASSIGN {
@@ -333,6 +394,81 @@ func (e *bndEngine) scanMutations() {
 	}
 }
 
+// bndSelChain: the chain of fields, embedded by value, that a field selector expression walks from
+// the last pointer dereference (or from its root variable) down to the selected field:
+// nl.ChildExpressions with nl *Lag is [Lag.NaryExpression, NaryExpression.ChildExpressions].
+// A sub-object has exactly one parent object, so two chains can name the same memory only if one
+// is a suffix of the other (bndChainConflict): a store through *Lag cannot touch the
+// NaryExpression embedded in a Locate. Shorter chains are the conservative direction.
+func bndSelChain(info *types.Info, x ast.Expr) []*types.Var {
+	sel, ok := ast.Unparen(x).(*ast.SelectorExpr)
+	if !ok {
+		return nil
+	}
+	s := info.Selections[sel]
+	if s == nil || s.Kind() != types.FieldVal {
+		return nil
+	}
+	t := s.Recv()
+	var chain []*types.Var
+	restarted := false
+	for _, idx := range s.Index() {
+		if pt, ok := t.Underlying().(*types.Pointer); ok {
+			t = pt.Elem()
+			chain = nil
+			restarted = true
+		}
+		st, ok := t.Underlying().(*types.Struct)
+		if !ok || idx >= st.NumFields() {
+			return nil
+		}
+		f := st.Field(idx)
+		chain = append(chain, f.Origin())
+		t = f.Type()
+	}
+	if !restarted {
+		if parent := bndSelChain(info, sel.X); parent != nil {
+			chain = append(append([]*types.Var{}, parent...), chain...)
+		}
+	}
+	return chain
+}
+
+// bndFAChain: the same chain for an SSA field address (nested FieldAddr = by-value nesting).
+func bndFAChain(fa *ssa.FieldAddr) []*types.Var {
+	pt, ok := fa.X.Type().Underlying().(*types.Pointer)
+	if !ok {
+		return nil
+	}
+	st, ok := pt.Elem().Underlying().(*types.Struct)
+	if !ok || fa.Field >= st.NumFields() {
+		return nil
+	}
+	fv := st.Field(fa.Field).Origin()
+	if inner, ok := fa.X.(*ssa.FieldAddr); ok {
+		if ch := bndFAChain(inner); ch != nil {
+			return append(ch, fv)
+		}
+	}
+	return []*types.Var{fv}
+}
+
+func bndChainConflict(load, store []*types.Var) bool {
+	if len(load) == 0 || len(store) == 0 {
+		return true
+	}
+	n := len(load)
+	if len(store) < n {
+		n = len(store)
+	}
+	for i := 1; i <= n; i++ {
+		if load[len(load)-i] != store[len(store)-i] {
+			return false
+		}
+	}
+	return true
+}
+
 // stableField: loads of this field through the same pointer value yield the same value for the
 // duration of a call (no store to it exists in the loaded module outside object construction).
 func (e *bndEngine) stableField(fa *ssa.FieldAddr) bool {
@@ -347,7 +483,13 @@ func (e *bndEngine) stableField(fa *ssa.FieldAddr) bool {
 	}
 	fv := st.Field(fa.Field).Origin()
 	if e.mutFields[fv] {
-		return false
+		// some store to this field exists: it is harmless only if it cannot address the same object
+		load := bndFAChain(fa)
+		for _, store := range e.mutChains[fv] {
+			if bndChainConflict(load, store) {
+				return false
+			}
+		}
 	}
 	if nt, ok := types.Unalias(pt.Elem()).(*types.Named); ok {
 		if e.mutStruct[nt.Origin().Obj()] {
@@ -381,6 +523,7 @@ type bndAn struct {
 	frozen   bool
 	nNodes   int
 	names    []string // node -> readable name
+	nodeS    []bool   // node holds a value <= MaxInt64 (signed integer or a length)
 	axLo     []int64  // node >= axLo (or -bndInf)
 	axHi     []int64  // node <= axHi (or bndInf)
 	valNode  map[ssa.Value]int
@@ -402,6 +545,13 @@ type bndAn struct {
 	obOrder      []string
 	exprAt       map[token.Pos]ast.Expr
 	recording    bool
+	narrowing    bool
+	nMin, nMax   int                     // strict mode: nodes of the constants MinInt64 and MaxInt64 (0 otherwise)
+	sig64        []bool                  // node is a signed 64-bit value: MinInt64 <= node <= MaxInt64
+	order        map[ssa.Instruction]int // index of an instruction in its block
+	sums         []*ssa.BinOp            // ADD/SUB instructions on wide integers (exact sums when they do not wrap)
+	// relational return summary: retLen[r][j] = the largest ret_r - len(param_j) over all returns
+	retLen [][]int64
 }
 
 func (e *bndEngine) analyse(fn *ssa.Function) *bndAn {
@@ -418,6 +568,14 @@ func (e *bndEngine) analyse(fn *ssa.Function) *bndAn {
 		loopHead: map[*ssa.BasicBlock]bool{}, in: map[*ssa.BasicBlock][]*bndDBM{}, edge: map[[2]int][]*bndDBM{},
 		visits: map[*ssa.BasicBlock]int{}, obs: map[string]*bndOb{}, exprAt: map[token.Pos]ast.Expr{}}
 	a.newNode("0", 0, 0) // node 0 = the constant zero
+	if e.strict {
+		// the two extreme int64 values as nodes: their numeric value is outside the matrix's range,
+		// but relations to them are ordinary difference constraints (x != MinInt64 is
+		// x - MinInt64 >= 1, which is what makes -x exact)
+		a.nMin = a.newNode("MinInt64", -bndInf, -bndBig)
+		a.nMax = a.newNode("MaxInt64", bndBig, bndInf)
+		a.nodeS[a.nMin], a.nodeS[a.nMax] = true, true
+	}
 	a.computeRelevant()
 	a.discover()
 	a.frozen = true
@@ -431,6 +589,8 @@ func (a *bndAn) newNode(name string, lo, hi int64) int {
 	a.names = append(a.names, name)
 	a.axLo = append(a.axLo, lo)
 	a.axHi = append(a.axHi, hi)
+	a.nodeS = append(a.nodeS, false)
+	a.sig64 = append(a.sig64, false)
 	a.nNodes++
 	return a.nNodes - 1
 }
@@ -489,6 +649,10 @@ func (a *bndAn) intNode(v ssa.Value) (int, bool) {
 		return -1, false
 	}
 	n := a.newNode(a.valName(v), lo, hi)
+	a.nodeS[n] = !bndUnsigned(v.Type())
+	if _, _, _, wide := bndIntRange(v.Type()); wide && a.nodeS[n] {
+		a.sig64[n] = true
+	}
 	a.valNode[v] = n
 	a.deps[v] = append(a.deps[v], n)
 	return n, true
@@ -530,6 +694,15 @@ func (a *bndAn) ckey(v ssa.Value) (string, []ssa.Value) {
 	case *ssa.Const:
 		if x.Value != nil && x.Value.Kind() == constant.String {
 			return fmt.Sprintf("K%q", constant.StringVal(x.Value)), nil
+		}
+	case *ssa.TypeAssert:
+		// val.(T) evaluated twice on the same interface value yields the same value (an
+		// interface value is immutable; the comma-ok form agrees whenever the plain form returns)
+		k, d := a.ckey(x.X)
+		return fmt.Sprintf("A(%s:%s)", k, x.AssertedType.String()), d
+	case *ssa.Extract:
+		if ta, ok := x.Tuple.(*ssa.TypeAssert); ok && x.Index == 0 {
+			return a.ckey(ta)
 		}
 	}
 	return fmt.Sprintf("v%d", a.id(v)), []ssa.Value{v}
@@ -648,7 +821,12 @@ func (a *bndAn) lenTerm(v ssa.Value) bndTerm {
 	if a.frozen {
 		return bndTerm{}
 	}
-	n := a.newNode("len("+a.srcName(v)+")", 0, bndInf)
+	lenHi := bndInf
+	if a.e.strict {
+		lenHi = bndLenMax
+	}
+	n := a.newNode("len("+a.srcName(v)+")", 0, lenHi)
+	a.nodeS[n] = true
 	a.keyNode[key] = n
 	for _, d := range deps {
 		a.deps[d] = append(a.deps[d], n)
@@ -673,6 +851,14 @@ func (a *bndAn) term(v ssa.Value) bndTerm {
 		if c.Value != nil && c.Value.Kind() == constant.Int {
 			if i, exact := constant.Int64Val(c.Value); exact && i < bndBig && i > -bndBig {
 				return bndTerm{0, i, true}
+			} else if exact && a.nMin != 0 {
+				// a constant near one end of the int64 range, relative to that end
+				if i < 0 && i-math.MinInt64 < bndBig {
+					return bndTerm{a.nMin, i - math.MinInt64, true}
+				}
+				if i > 0 && math.MaxInt64-i < bndBig {
+					return bndTerm{a.nMax, -(math.MaxInt64 - i), true}
+				}
 			}
 		}
 		return bndTerm{}
@@ -755,6 +941,12 @@ func (a *bndAn) computeRelevant() {
 				if x.Op == token.SUB {
 					mark(x.X)
 				}
+			case *ssa.Call:
+				if b, ok := x.Call.Value.(*ssa.Builtin); ok && (b.Name() == "min" || b.Name() == "max") {
+					for _, arg := range x.Call.Args {
+						mark(arg)
+					}
+				}
 			}
 		}
 		n := len(a.relevant)
@@ -802,6 +994,19 @@ func (a *bndAn) discover() {
 			}
 		}
 	}
+	a.order = map[ssa.Instruction]int{}
+	for _, b := range a.fn.Blocks {
+		for i, ins := range b.Instrs {
+			a.order[ins] = i
+			if bo, ok := ins.(*ssa.BinOp); ok && (bo.Op == token.ADD || bo.Op == token.SUB) {
+				if _, _, isInt, wide := bndIntRange(bo.Type()); isInt && wide {
+					if n, has := a.valNode[bo]; has && n >= 0 {
+						a.sums = append(a.sums, bo)
+					}
+				}
+			}
+		}
+	}
 	// loop heads: targets of back edges (the target dominates the source)
 	for _, b := range a.fn.Blocks {
 		for _, s := range b.Succs {
@@ -837,6 +1042,9 @@ func (a *bndAn) axioms(w *bndDBM, n int) bool {
 	}
 	if a.axHi[n] < bndInf {
 		ok = w.add(n, 0, a.axHi[n]) && ok
+	}
+	if a.nMin != 0 && a.sig64[n] {
+		ok = w.add(a.nMin, n, 0) && w.add(n, a.nMax, 0) && ok
 	}
 	return ok
 }
@@ -912,12 +1120,18 @@ func (a *bndAn) define(w *bndDBM, ins ssa.Instruction) bool {
 			}
 			switch {
 			case cy && tx.ok:
-				ok = a.eq(w, self, bndTerm{tx.n, tx.k + ty.k, true})
+				if a.constAddExact(w, tx, ty.k, uns) {
+					ok = a.eq(w, self, bndTerm{tx.n, tx.k + ty.k, true})
+				}
 			case cx && ty.ok:
-				ok = a.eq(w, self, bndTerm{ty.n, ty.k + tx.k, true})
+				if a.constAddExact(w, ty, tx.k, uns) {
+					ok = a.eq(w, self, bndTerm{ty.n, ty.k + tx.k, true})
+				}
 			case tx.ok && ty.ok:
 				// z = x + y: z - n <= ub(x - n) + ub(y - 0) and the symmetric forms
-				ok = a.sumApprox(w, self, tx, ty)
+				if a.sumExact(w, tx, ty, uns) {
+					ok = a.sumApprox(w, self, tx, ty)
+				}
 			}
 		case token.SUB:
 			if !wide {
@@ -927,25 +1141,18 @@ func (a *bndAn) define(w *bndDBM, ins ssa.Instruction) bool {
 				if uns && a.ub(w, bndZero, tx) > -ty.k { // cannot show x >= c: may wrap
 					break
 				}
+				if !uns && !a.constAddExact(w, tx, -ty.k, false) {
+					break
+				}
 				ok = a.eq(w, self, bndTerm{tx.n, tx.k - ty.k, true})
 			} else if tx.ok && ty.ok {
 				if uns && a.ub(w, ty, tx) > 0 {
 					break
 				}
-				// z = x - y: z - x <= -lb(y) = ub(0 - y); x - z <= ub(y - 0)
-				if u := a.ub(w, bndZero, ty); u < bndInf {
-					ok = a.le(w, self, tx, u)
+				if !uns && !a.diffExact(w, tx, ty) {
+					break
 				}
-				if u := a.ub(w, ty, bndZero); u < bndInf {
-					ok = a.le(w, tx, self, u) && ok
-				}
-				// z <= ub(x - y), z >= -ub(y - x)
-				if u := a.ub(w, tx, ty); u < bndInf {
-					ok = a.le(w, self, bndZero, u) && ok
-				}
-				if u := a.ub(w, ty, tx); u < bndInf {
-					ok = a.le(w, bndZero, self, u) && ok
-				}
+				ok = a.applyDiff(w, self, tx, ty)
 			}
 		case token.REM:
 			if cy && ty.k > 0 && tx.ok {
@@ -977,9 +1184,9 @@ func (a *bndAn) define(w *bndDBM, ins ssa.Instruction) bool {
 			}
 		case token.MUL:
 			// x * c with c >= 1 and x >= 0: result >= x
-			if cy && ty.k >= 1 && tx.ok && wide && a.ub(w, bndZero, tx) <= 0 {
+			if cy && ty.k >= 1 && tx.ok && wide && a.ub(w, bndZero, tx) <= 0 && a.mulExact(w, tx, ty.k) {
 				ok = a.le(w, tx, self, 0)
-			} else if cx && tx.k >= 1 && ty.ok && wide && a.ub(w, bndZero, ty) <= 0 {
+			} else if cx && tx.k >= 1 && ty.ok && wide && a.ub(w, bndZero, ty) <= 0 && a.mulExact(w, ty, tx.k) {
 				ok = a.le(w, ty, self, 0)
 			}
 		}
@@ -998,6 +1205,9 @@ func (a *bndAn) define(w *bndDBM, ins ssa.Instruction) bool {
 		// the conversion preserves the value iff the operand is known to lie in the target range
 		okLo := lo <= -bndInf || a.ub(w, bndZero, tx) <= -lo
 		okHi := hi >= bndInf || a.ub(w, tx, bndZero) <= hi
+		if a.e.strict && okHi && hi >= bndInf && !bndUnsigned(v.Type()) && bndUnsigned(x.X.Type()) {
+			okHi = a.ub(w, tx, bndZero) < bndInf
+		}
 		if okLo && okHi {
 			ok = a.eq(w, self, tx)
 		}
@@ -1028,13 +1238,54 @@ func (a *bndAn) define(w *bndDBM, ins ssa.Instruction) bool {
 		}
 	case *ssa.Slice:
 		ok = a.defineSlice(w, x)
+	case *ssa.UnOp:
+		// z = -x: exact unless x is the minimum value, i.e. whenever x has a (finite) lower bound
+		if x.Op == token.SUB && self.ok && wide && !bndUnsigned(v.Type()) {
+			if tx := a.term(x.X); tx.ok {
+				l, u := a.ub(w, bndZero, tx), a.ub(w, tx, bndZero)                                // -x <= l, x <= u
+				exact := !a.e.strict || l < bndInf || a.ub(w, bndTerm{a.nMin, 0, true}, tx) <= -1 // x > MinInt64
+				if l < bndInf {
+					ok = a.le(w, self, bndZero, l)
+				}
+				if u < bndInf && exact {
+					ok = a.le(w, bndZero, self, u) && ok
+				}
+			}
+		}
 	}
-	// string <-> []byte conversions keep the length
+	if bo, isBin := v.(*ssa.BinOp); isBin {
+		switch {
+		case bo.Op == token.ADD && bndBytesOrString(v.Type()):
+			// string concatenation
+			if lt, lx, ly := a.lenTerm(v), a.lenTerm(bo.X), a.lenTerm(bo.Y); lt.ok && lt.n != 0 && lx.ok && ly.ok {
+				ok = a.sumApprox(w, lt, lx, ly) && ok
+			}
+		case (bo.Op == token.ADD || bo.Op == token.SUB) && self.ok && wide && ok:
+			ok = a.rederive(w, bo.Block(), a.order[bo]+1)
+		}
+	}
+	if call, isCall := v.(*ssa.Call); isCall {
+		ok = a.defineCallLen(w, call) && ok
+	}
+	// string <-> []byte conversions keep the length; string -> []rune yields between 1 (if the
+	// string is not empty) and len(s) runes; []rune -> string yields at least one byte per rune
 	if cv, isConv := v.(*ssa.Convert); isConv {
 		if lt := a.lenTerm(v); lt.ok && lt.n != 0 {
-			if bndBytesOrString(cv.X.Type()) && bndBytesOrString(v.Type()) {
+			switch {
+			case bndBytesOrString(cv.X.Type()) && bndBytesOrString(v.Type()):
 				if lx := a.lenTerm(cv.X); lx.ok {
 					ok = a.eq(w, lt, lx) && ok
+				}
+			case bndBytesOrString(cv.X.Type()) && bndRunes(v.Type()):
+				if lx := a.lenTerm(cv.X); lx.ok {
+					ok = a.le(w, lt, lx, 0) && ok
+					if a.ub(w, bndZero, lx) <= -1 {
+						ok = a.le(w, bndTerm{0, 1, true}, lt, 0) && ok
+					}
+				}
+			case bndRunes(cv.X.Type()) && bndBytesOrString(v.Type()):
+				if lx := a.lenTerm(cv.X); lx.ok {
+					ok = a.le(w, lx, lt, 0) && ok
 				}
 			}
 		}
@@ -1049,6 +1300,15 @@ func bndBytesOrString(t types.Type) bool {
 	case *types.Slice:
 		if b, ok := u.Elem().Underlying().(*types.Basic); ok {
 			return b.Kind() == types.Uint8
+		}
+	}
+	return false
+}
+
+func bndRunes(t types.Type) bool {
+	if u, ok := t.Underlying().(*types.Slice); ok {
+		if b, ok := u.Elem().Underlying().(*types.Basic); ok {
+			return b.Kind() == types.Int32
 		}
 	}
 	return false
@@ -1087,6 +1347,193 @@ func (a *bndAn) sumApprox(w *bndDBM, z, x, y bndTerm) bool {
 	}
 	for _, k := range cs {
 		ok = w.add(k.i, k.j, k.k) && ok
+	}
+	return ok
+}
+
+// ---- exactness of machine arithmetic (strict mode; always true otherwise)
+
+func (a *bndAn) hasUB(w *bndDBM, t bndTerm) bool { return a.ub(w, t, bndZero) < bndInf }
+func (a *bndAn) hasLB(w *bndDBM, t bndTerm) bool { return a.ub(w, bndZero, t) < bndInf }
+
+// constAddExact: x + c does not wrap: x is bounded on the side it moves to, by a constant or by
+// another 64-bit value it stays below/above (i < n  =>  i+1 <= n).
+func (a *bndAn) constAddExact(w *bndDBM, x bndTerm, c int64, uns bool) bool {
+	if !a.e.strict || c == 0 {
+		return true
+	}
+	if c > 0 {
+		if a.hasUB(w, x) {
+			return true
+		}
+		for m := 1; m < a.nNodes; m++ {
+			if m != x.n && (a.nodeS[m] || uns) && bndAdd(w.get(x.n, m), x.k+c) <= 0 {
+				return true
+			}
+		}
+		return false
+	}
+	if uns {
+		return a.ub(w, bndZero, x) <= c // x >= -c
+	}
+	if a.hasLB(w, x) {
+		return true
+	}
+	for m := 1; m < a.nNodes; m++ {
+		if m != x.n && bndAdd(w.get(m, x.n), -(x.k+c)) <= 0 { // m <= x + c
+			return true
+		}
+	}
+	return false
+}
+
+// sumExact: x + y does not wrap.
+func (a *bndAn) sumExact(w *bndDBM, x, y bndTerm, uns bool) bool {
+	if !a.e.strict {
+		return true
+	}
+	up := (a.hasUB(w, x) && a.hasUB(w, y)) || (!uns && (a.ub(w, x, bndZero) <= 0 || a.ub(w, y, bndZero) <= 0))
+	down := uns || (a.hasLB(w, x) && a.hasLB(w, y)) || a.ub(w, bndZero, x) <= 0 || a.ub(w, bndZero, y) <= 0
+	return up && down
+}
+
+// diffExact: the signed difference x - y does not wrap.
+func (a *bndAn) diffExact(w *bndDBM, x, y bndTerm) bool {
+	if !a.e.strict {
+		return true
+	}
+	up := a.ub(w, bndZero, y) <= 0 || a.ub(w, x, bndZero) <= -1 || (a.hasUB(w, x) && a.hasLB(w, y))
+	down := a.ub(w, y, bndZero) <= 0 || a.ub(w, bndZero, x) <= 0 || (a.hasLB(w, x) && a.hasUB(w, y))
+	return up && down
+}
+
+func (a *bndAn) mulExact(w *bndDBM, x bndTerm, c int64) bool {
+	if !a.e.strict {
+		return true
+	}
+	u := a.ub(w, x, bndZero)
+	return u < bndInf && c >= 1 && c < bndBig && u < bndBig && (u <= 0 || u < bndInf/c)
+}
+
+// applyDiff: z = x - y (exact): z - x <= -lb(y), x - z <= ub(y), z <= ub(x - y), z >= -ub(y - x).
+func (a *bndAn) applyDiff(w *bndDBM, self, tx, ty bndTerm) bool {
+	ok := true
+	if u := a.ub(w, bndZero, ty); u < bndInf {
+		ok = a.le(w, self, tx, u)
+	}
+	if u := a.ub(w, ty, bndZero); u < bndInf {
+		ok = a.le(w, tx, self, u) && ok
+	}
+	if u := a.ub(w, tx, ty); u < bndInf {
+		ok = a.le(w, self, bndZero, u) && ok
+	}
+	if u := a.ub(w, ty, tx); u < bndInf {
+		ok = a.le(w, bndZero, self, u) && ok
+	}
+	return ok
+}
+
+// domPoint: the instruction's definition dominates the point (blk, idx = number of instructions
+// of blk already executed), so its current value is the one its operands' current values define.
+func (a *bndAn) domPoint(def ssa.Instruction, blk *ssa.BasicBlock, idx int) bool {
+	db := def.Block()
+	if db == blk {
+		return a.order[def] < idx
+	}
+	return db.Dominates(blk)
+}
+
+// rederive re-applies, at a program point, what the definitions of the ADD/SUB values that
+// dominate it say under the constraints known now (SSA values are immutable: a bound learnt later
+// shows just as well that the earlier operation did not wrap), and relates pairs of exact sums that
+// share an addend:  s1 = p1 + q, s2 = p2 + q  =>  s1 - s2 = p1 - p2  (start+n <= end gives
+// start <= end-n; length <= count-start gives start+length <= count).
+func (a *bndAn) rederive(w *bndDBM, blk *ssa.BasicBlock, idx int) bool {
+	type fact struct{ s, p, q bndTerm }
+	var facts []fact
+	ok := true
+	for _, bo := range a.sums {
+		if !a.domPoint(bo, blk, idx) {
+			continue
+		}
+		self := bndTerm{a.valNode[bo], 0, true}
+		tx, ty := a.term(bo.X), a.term(bo.Y)
+		if !tx.ok || !ty.ok {
+			continue
+		}
+		uns := bndUnsigned(bo.Type())
+		if bo.Op == token.ADD {
+			if (tx.n == 0 && !a.constAddExact(w, ty, tx.k, uns)) || (ty.n == 0 && !a.constAddExact(w, tx, ty.k, uns)) {
+				continue
+			}
+			if tx.n != 0 && ty.n != 0 && !a.sumExact(w, tx, ty, uns) {
+				continue
+			}
+			if tx.n != 0 && ty.n != 0 {
+				ok = a.sumApprox(w, self, tx, ty) && ok
+				facts = append(facts, fact{self, tx, ty})
+			} else if ty.n == 0 {
+				ok = a.eq(w, self, bndTerm{tx.n, tx.k + ty.k, true}) && ok
+			} else {
+				ok = a.eq(w, self, bndTerm{ty.n, ty.k + tx.k, true}) && ok
+			}
+			continue
+		}
+		// z = x - y  <=>  x = z + y
+		if uns {
+			if a.ub(w, ty, tx) > 0 {
+				continue
+			}
+		} else if ty.n == 0 {
+			if !a.constAddExact(w, tx, -ty.k, false) {
+				continue
+			}
+		} else if !a.diffExact(w, tx, ty) {
+			continue
+		}
+		if ty.n == 0 {
+			ok = a.eq(w, self, bndTerm{tx.n, tx.k - ty.k, true}) && ok
+			continue
+		}
+		ok = a.applyDiff(w, self, tx, ty) && ok
+		if tx.n != 0 && tx.k == 0 {
+			ok = a.sumApprox(w, tx, self, ty) && ok
+		}
+		facts = append(facts, fact{tx, self, ty})
+	}
+	// two exact sums f.s = f.p + f.q and g.s = g.p + g.q:
+	//   f.s - g.s = (f.p - g.p) + (f.q - g.q) = (f.p - g.q) + (f.q - g.p)
+	// so a bound on two of the three differences bounds the third (a shared addend makes one of
+	// them 0: start+n <= end => start <= end-n; i <= lt-ls and j < ls => i+j < lt).
+	for i := 0; i < len(facts) && ok; i++ {
+		for j := i + 1; j < len(facts) && ok; j++ {
+			f, g := facts[i], facts[j]
+			for _, m := range [2][2]bndTerm{{g.p, g.q}, {g.q, g.p}} {
+				gp, gq := m[0], m[1] // f.p pairs with gp, f.q with gq
+				sfg, sgf := a.ub(w, f.s, g.s), a.ub(w, g.s, f.s)
+				pfg, pgf := a.ub(w, f.p, gp), a.ub(w, gp, f.p)
+				qfg, qgf := a.ub(w, f.q, gq), a.ub(w, gq, f.q)
+				if k := bndAdd(pfg, qfg); k < bndInf {
+					ok = a.le(w, f.s, g.s, k) && ok
+				}
+				if k := bndAdd(pgf, qgf); k < bndInf {
+					ok = a.le(w, g.s, f.s, k) && ok
+				}
+				// f.p - gp = (f.s - g.s) - (f.q - gq)
+				if k := bndAdd(sfg, qgf); k < bndInf {
+					ok = a.le(w, f.p, gp, k) && ok
+				}
+				if k := bndAdd(sgf, qfg); k < bndInf {
+					ok = a.le(w, gp, f.p, k) && ok
+				}
+				if k := bndAdd(sfg, pgf); k < bndInf {
+					ok = a.le(w, f.q, gq, k) && ok
+				}
+				if k := bndAdd(sgf, pfg); k < bndInf {
+					ok = a.le(w, gq, f.q, k) && ok
+				}
+			}
+		}
 	}
 	return ok
 }
@@ -1146,8 +1593,102 @@ var bndStdModels = map[string][]bndModel{
 	"encoding/hex.Decode":                 {{0, 0, bndInf, 1, false}},
 	"bytes.IndexByte":                     {{0, -1, bndInf, -2, false}},
 	"strings.IndexByte":                   {{0, -1, bndInf, -2, false}},
-	"bytes.Index":                         {{0, -1, bndInf, -2, false}},
-	"strings.Index":                       {{0, -1, bndInf, -2, false}},
+	"bytes.Index":                         {{0, -1, bndInf, -3, false}},
+	"strings.Index":                       {{0, -1, bndInf, -3, false}},
+	"bytes.LastIndex":                     {{0, -1, bndInf, -3, false}},
+	"strings.LastIndex":                   {{0, -1, bndInf, -3, false}},
+	"bytes.LastIndexByte":                 {{0, -1, bndInf, -2, false}},
+	"strings.LastIndexByte":               {{0, -1, bndInf, -2, false}},
+	"strings.IndexRune":                   {{0, -1, bndInf, -2, false}},
+	"bytes.IndexRune":                     {{0, -1, bndInf, -2, false}},
+	"strings.IndexAny":                    {{0, -1, bndInf, -2, false}},
+	"strings.IndexFunc":                   {{0, -1, bndInf, -2, false}},
+	"io.ReadFull":                         {{0, 0, bndInf, 1, false}},
+}
+
+// bndStdLenMin: lower bounds on the length of the string returned by a standard-library function.
+var bndStdLenMin = map[string]int64{
+	"strconv.Itoa":       1,
+	"strconv.FormatInt":  1, // at least one digit
+	"strconv.FormatUint": 1,
+	"time.Time.String":   19, // Format("2006-01-02 15:04:05.999999999 -0700 MST"): the year is padded to >= 4 digits, every other field of "2006-01-02 15:04:05" has a fixed width
+}
+
+// bndSprintfMinLen: a lower bound on len(fmt.Sprintf(format, ...)) read off a constant format:
+// literal bytes count, a verb with an explicit width yields at least that many bytes (%09d).
+// Anything unusual ('*', argument indexes) stops the scan.
+func bndSprintfMinLen(f string) int64 {
+	var n int64
+	for i := 0; i < len(f); {
+		if f[i] != '%' {
+			n++
+			i++
+			continue
+		}
+		i++
+		if i >= len(f) {
+			return n
+		}
+		if f[i] == '%' {
+			n++
+			i++
+			continue
+		}
+		for i < len(f) && strings.IndexByte("+-# 0", f[i]) >= 0 {
+			i++
+		}
+		width := int64(0)
+		for i < len(f) && f[i] >= '0' && f[i] <= '9' {
+			if width < 1<<20 {
+				width = width*10 + int64(f[i]-'0')
+			}
+			i++
+		}
+		if i < len(f) && f[i] == '.' {
+			i++
+			for i < len(f) && f[i] >= '0' && f[i] <= '9' {
+				i++
+			}
+		}
+		if i >= len(f) || f[i] == '*' || f[i] == '[' {
+			return n
+		}
+		verb := f[i]
+		i++
+		_ = verb // a verb without a width may render as nothing (%s, %x of an empty string, %v)
+		n += width
+	}
+	return n
+}
+
+// defineCallLen: what is known about the length of a call's string/slice result.
+func (a *bndAn) defineCallLen(w *bndDBM, call *ssa.Call) bool {
+	lt := a.lenTerm(call)
+	if !lt.ok || lt.n == 0 {
+		return true
+	}
+	callee := call.Call.StaticCallee()
+	if callee == nil || callee.Object() == nil {
+		return true
+	}
+	f, isF := callee.Object().(*types.Func)
+	if !isF {
+		return true
+	}
+	name := FullName(f)
+	min := int64(0)
+	if m, has := bndStdLenMin[name]; has {
+		min = m
+	}
+	if name == "fmt.Sprintf" && len(call.Call.Args) > 0 {
+		if c, isC := call.Call.Args[0].(*ssa.Const); isC && c.Value != nil && c.Value.Kind() == constant.String {
+			min = bndSprintfMinLen(constant.StringVal(c.Value))
+		}
+	}
+	if min > 0 {
+		return a.le(w, bndTerm{0, min, true}, lt, 0)
+	}
+	return true
 }
 
 func (a *bndAn) defineCall(w *bndDBM, x *ssa.Call, self bndTerm) bool {
@@ -1204,6 +1745,9 @@ func (a *bndAn) defineCall(w *bndDBM, x *ssa.Call, self bndTerm) bool {
 func (a *bndAn) applyResult(w *bndDBM, call *ssa.Call, idx int, self bndTerm) bool {
 	callee := call.Call.StaticCallee()
 	if callee == nil {
+		if call.Call.IsInvoke() {
+			return a.applyInvoke(w, call, idx, self)
+		}
 		return true
 	}
 	ok := true
@@ -1237,20 +1781,184 @@ func (a *bndAn) applyResult(w *bndDBM, call *ssa.Call, idx int, self bndTerm) bo
 					ok = a.le(w, self, l, -1) && ok
 				}
 			}
+			if m.leLenArg == -3 && len(call.Call.Args) > 1 { // index of a substring: result + len(arg1) <= len(arg0) (an empty needle is found at 0 even in an empty haystack)
+				if l := a.lenTerm(call.Call.Args[0]); l.ok {
+					need := int64(0)
+					if l1 := a.lenTerm(call.Call.Args[1]); l1.ok {
+						if lb := a.ub(w, bndZero, l1); lb < bndInf && lb <= 0 {
+							need = -lb
+						}
+					}
+					ok = a.le(w, self, l, -need) && ok
+				}
+			}
 		}
 		return ok
 	}
 	if a.e.moduleFunc(callee) {
 		if r := a.e.analyse(callee); r != nil && r.retSeen && !r.diverged && idx < len(r.retLo) {
-			if r.retLo[idx] > -bndInf {
-				ok = a.le(w, bndTerm{0, r.retLo[idx], true}, self, 0) && ok
-			}
-			if r.retHi[idx] < bndInf {
-				ok = a.le(w, self, bndTerm{0, r.retHi[idx], true}, 0) && ok
+			ok = a.applySummary(w, self, r.retLo[idx], r.retHi[idx], r.retLen[idx], call.Call.Args) && ok
+		}
+	}
+	return ok
+}
+
+// applySummary: lo <= self <= hi and self <= len(args[j]) + relLen[j].
+func (a *bndAn) applySummary(w *bndDBM, self bndTerm, lo, hi int64, relLen []int64, args []ssa.Value) bool {
+	ok := true
+	if lo > -bndInf {
+		ok = a.le(w, bndTerm{0, lo, true}, self, 0) && ok
+	}
+	if hi < bndInf {
+		ok = a.le(w, self, bndTerm{0, hi, true}, 0) && ok
+	}
+	for j, k := range relLen {
+		if k < bndInf && j < len(args) {
+			if l := a.lenTerm(args[j]); l.ok {
+				ok = a.le(w, self, l, k) && ok
 			}
 		}
 	}
 	return ok
+}
+
+// applyInvoke: the result of a call through an interface. io.Reader's contract (0 <= n <= len(p))
+// is a model; for an interface method whose every possible implementation is a function of the
+// analysed module, the join of their summaries.
+func (a *bndAn) applyInvoke(w *bndDBM, call *ssa.Call, idx int, self bndTerm) bool {
+	m := call.Call.Method
+	if m == nil {
+		return true
+	}
+	if FullName(m) == "io.Reader.Read" {
+		if idx != 0 || len(call.Call.Args) != 1 {
+			return true
+		}
+		ok := a.le(w, bndZero, self, 0)
+		if l := a.lenTerm(call.Call.Args[0]); l.ok {
+			ok = a.le(w, self, l, 0) && ok
+		}
+		return ok
+	}
+	impls := a.e.implementations(m)
+	if len(impls) == 0 {
+		return true
+	}
+	lo, hi := bndInf, -bndInf
+	var rel []int64
+	any := false
+	for _, f := range impls {
+		r := a.e.analyse(f)
+		if r == nil || r.diverged {
+			return true
+		}
+		if !r.retSeen {
+			continue // never returns
+		}
+		if idx >= len(r.retLo) {
+			return true
+		}
+		if r.retLo[idx] < lo {
+			lo = r.retLo[idx]
+		}
+		if r.retHi[idx] > hi {
+			hi = r.retHi[idx]
+		}
+		// parameter j+1 of the implementation (0 is the receiver) is argument j of the call
+		rl := make([]int64, len(call.Call.Args))
+		for j := range rl {
+			rl[j] = bndInf
+			if j+1 < len(r.retLen[idx]) {
+				rl[j] = r.retLen[idx][j+1]
+			}
+		}
+		if !any {
+			rel, any = rl, true
+		} else {
+			for j := range rel {
+				if rl[j] > rel[j] {
+					rel[j] = rl[j]
+				}
+			}
+		}
+	}
+	if !any {
+		return true
+	}
+	return a.applySummary(w, self, lo, hi, rel, call.Call.Args)
+}
+
+// implementations: every function that a call of interface method m can reach, or nil when that
+// set is not closed over the analysed module: all concrete methods of the loaded program with m's
+// name and signature are candidates (a superset of the method sets that satisfy the interface,
+// promotion through embedding included); one outside the module, an abstract one or one of a
+// generic type makes the set open.
+func (e *bndEngine) implementations(m *types.Func) []*ssa.Function {
+	key := FullName(m)
+	if fs, done := e.impls[key]; done {
+		return fs
+	}
+	e.impls[key] = nil
+	msig, _ := m.Type().(*types.Signature)
+	if msig == nil || m.Pkg() == nil {
+		return nil
+	}
+	if pk := e.p.ByPath[m.Pkg().Path()]; pk == nil || pk.Module == nil || !pk.Module.Main {
+		return nil // only interfaces declared in the module
+	}
+	sameSig := func(f *types.Func) bool {
+		fs, _ := f.Type().(*types.Signature)
+		return fs != nil && types.Identical(types.NewSignatureType(nil, nil, nil, fs.Params(), fs.Results(), fs.Variadic()),
+			types.NewSignatureType(nil, nil, nil, msig.Params(), msig.Results(), msig.Variadic()))
+	}
+	var out []*ssa.Function
+	for _, pk := range e.p.ByPath {
+		if pk.Types == nil {
+			continue
+		}
+		inModule := pk.Module != nil && pk.Module.Main
+		var tns []*types.TypeName
+		if pk.TypesInfo != nil && len(pk.TypesInfo.Defs) > 0 {
+			for _, obj := range pk.TypesInfo.Defs {
+				if tn, ok := obj.(*types.TypeName); ok {
+					tns = append(tns, tn)
+				}
+			}
+		} else {
+			sc := pk.Types.Scope()
+			for _, n := range sc.Names() {
+				if tn, ok := sc.Lookup(n).(*types.TypeName); ok {
+					tns = append(tns, tn)
+				}
+			}
+		}
+		for _, tn := range tns {
+			nt, ok := tn.Type().(*types.Named)
+			if !ok {
+				continue
+			}
+			if _, isIface := nt.Underlying().(*types.Interface); isIface {
+				continue
+			}
+			for i := 0; i < nt.NumMethods(); i++ {
+				f := nt.Method(i)
+				if f.Name() != m.Name() || (!f.Exported() && f.Pkg() != m.Pkg()) || !sameSig(f) {
+					continue
+				}
+				if !inModule || nt.TypeParams().Len() > 0 {
+					return nil
+				}
+				sf := e.ssaFunc(f)
+				if sf == nil || !e.moduleFunc(sf) {
+					return nil
+				}
+				out = append(out, sf)
+			}
+		}
+	}
+	sort.Slice(out, func(i, j int) bool { return out[i].String() < out[j].String() })
+	e.impls[key] = out
+	return out
 }
 
 // refine applies a branch condition to a world; false = the branch is infeasible.
@@ -1402,6 +2110,9 @@ func (a *bndAn) step(w *bndDBM, ins ssa.Instruction) bool {
 			ok = a.le(w, p.x, p.y, p.c) && ok
 		}
 	}
+	if ok && len(post) > 0 && len(a.sums) > 0 {
+		ok = a.rederive(w, ins.Block(), a.order[ins]+1)
+	}
 	return ok
 }
 
@@ -1479,6 +2190,9 @@ func (a *bndAn) edgeTransfer(w *bndDBM, b *ssa.BasicBlock, si int) *bndDBM {
 	w = w.clone()
 	if iff, ok := b.Instrs[len(b.Instrs)-1].(*ssa.If); ok {
 		if !a.refine(w, iff.Cond, si == 0) {
+			return nil
+		}
+		if len(a.sums) > 0 && !a.rederive(w, b, len(b.Instrs)) {
 			return nil
 		}
 	}
@@ -1595,7 +2309,7 @@ func (a *bndAn) computeIn(b *ssa.BasicBlock) []*bndDBM {
 		for _, w := range ws[1:] {
 			j = bndJoin(j, w)
 		}
-		if old := a.in[b]; len(old) == 1 && a.visits[b] >= 3 {
+		if old := a.in[b]; len(old) == 1 && a.visits[b] >= 3 && !a.narrowing {
 			wd := j.clone()
 			for i := range wd.m {
 				if j.m[i] > old[0].m[i] {
@@ -1640,8 +2354,13 @@ func (a *bndAn) noteReturn(w *bndDBM, ret *ssa.Return) {
 		a.retSeen = true
 		a.retLo = make([]int64, len(ret.Results))
 		a.retHi = make([]int64, len(ret.Results))
+		a.retLen = make([][]int64, len(ret.Results))
 		for i := range a.retLo {
 			a.retLo[i], a.retHi[i] = bndInf, -bndInf // empty interval
+			a.retLen[i] = make([]int64, len(a.fn.Params))
+			for j := range a.retLen[i] {
+				a.retLen[i][j] = -bndInf
+			}
 		}
 	}
 	for i, r := range ret.Results {
@@ -1663,7 +2382,33 @@ func (a *bndAn) noteReturn(w *bndDBM, ret *ssa.Return) {
 		if hi > a.retHi[i] {
 			a.retHi[i] = hi
 		}
+		for j, p := range a.fn.Params {
+			k := bndInf
+			if t := a.term(r); t.ok {
+				if lp := a.paramLen(p); lp.ok {
+					k = a.ub(w, t, lp)
+				}
+			}
+			if k > a.retLen[i][j] {
+				a.retLen[i][j] = k
+			}
+		}
 	}
+}
+
+// paramLen: the length node of a string/slice parameter (an SSA parameter is never redefined, so
+// at a return it still is the length the caller passed).
+func (a *bndAn) paramLen(p *ssa.Parameter) bndTerm {
+	switch p.Type().Underlying().(type) {
+	case *types.Slice:
+	case *types.Basic:
+		if !bndBytesOrString(p.Type()) {
+			return bndTerm{}
+		}
+	default:
+		return bndTerm{}
+	}
+	return a.lenTerm(p)
 }
 
 func (a *bndAn) run() {
@@ -1713,6 +2458,49 @@ func (a *bndAn) run() {
 			work[s.Index] = true
 		}
 	}
+	// narrowing: the states reached are a post-fixpoint (every in[b] over-approximates the
+	// concrete states at b); recomputing each block's entry as the plain join of its incoming
+	// edges, without widening, keeps that property and recovers bounds the widening gave up
+	// (for i = 0; i < 3; i++ { ... break ... } leaves i <= 3). A fixed number of descending passes.
+	if !a.diverged {
+		a.narrowing = true
+		for pass := 0; pass < 3; pass++ {
+			changed := false
+			for _, b := range blocks {
+				if b != entry {
+					nin := a.computeIn(b)
+					if !bndWorldsEqual(a.in[b], nin) {
+						changed = true
+					}
+					a.in[b] = nin
+				}
+				out := a.runBlock(b, a.in[b])
+				done := map[*ssa.BasicBlock]bool{}
+				for _, s := range b.Succs {
+					if done[s] {
+						continue
+					}
+					done[s] = true
+					var es []*bndDBM
+					for si, s2 := range b.Succs {
+						if s2 != s {
+							continue
+						}
+						for _, w := range out {
+							if nw := a.edgeTransfer(w, b, si); nw != nil {
+								es = append(es, nw)
+							}
+						}
+					}
+					a.edge[[2]int{b.Index, s.Index}] = bndDedupe(es)
+				}
+			}
+			if !changed {
+				break
+			}
+		}
+		a.narrowing = false
+	}
 	if a.e.debug {
 		a.dump()
 	}
@@ -1761,7 +2549,23 @@ func (a *bndAn) dump() {
 // functions, that it is in range on every path (see the file comment). One obligation per
 // function and distinct source expression, keyed "<Type.Func>/<expression>".
 func BoundsCheckFuncs(c *Ctx, rule string, fns []*types.Func) {
-	e := bndEngineFor(c.P)
+	BoundsCheckFuncsOpt(c, rule, fns, BoundsOpts{})
+}
+
+// BoundsOpts: Strict selects machine-integer semantics (see bndEngine.strict); Anon also decides the
+// function literals nested in each function (keyed under the enclosing function); Exceptions are
+// the rule's own named exceptions (FuncName/expression -> reason) in addition to bndExceptions;
+// Unreached, if set, returns a reason when a function cannot be reached at all (dead code): its
+// unproven expressions are then recorded as exceptions with that reason.
+type BoundsOpts struct {
+	Strict     bool
+	Anon       bool
+	Exceptions map[string]string
+	Unreached  func(f *types.Func) string
+}
+
+func BoundsCheckFuncsOpt(c *Ctx, rule string, fns []*types.Func, opt BoundsOpts) {
+	e := bndEngineForMode(c.P, opt.Strict)
 	for _, f := range fns {
 		if f == nil {
 			c.Undecided(rule, "function", token.NoPos, "a kernel function of the rule's frozen list was not found")
@@ -1773,28 +2577,84 @@ func BoundsCheckFuncs(c *Ctx, rule string, fns []*types.Func) {
 			c.Undecided(rule, name, f.Pos(), "no SSA body for "+FullName(f))
 			continue
 		}
-		a := e.analyse(sf)
-		if a == nil || a.diverged {
-			c.Undecided(rule, name, f.Pos(), "bounds analysis did not converge")
+		sfs := []*ssa.Function{sf}
+		if opt.Anon {
+			for i := 0; i < len(sfs); i++ {
+				sfs = append(sfs, sfs[i].AnonFuncs...)
+			}
+		}
+		// one obligation per distinct source expression of the declaration (literals included)
+		type merged struct {
+			ob    *bndOb
+			fails []string
+			count int
+		}
+		obs := map[string]*merged{}
+		var order []string
+		failed := false
+		for _, g := range sfs {
+			a := e.analyse(g)
+			if a == nil || a.diverged {
+				c.Undecided(rule, name, f.Pos(), "bounds analysis did not converge")
+				failed = true
+				break
+			}
+			for _, k := range a.obOrder {
+				ob := a.obs[k]
+				m := obs[k]
+				if m == nil {
+					m = &merged{ob: ob}
+					obs[k] = m
+					order = append(order, k)
+				}
+				m.count += ob.count
+				for _, fl := range ob.fails {
+					if len(m.fails) == 0 {
+						m.ob = ob
+					}
+					m.fails = append(m.fails, fl)
+				}
+			}
+		}
+		if failed {
 			continue
 		}
-		if len(a.obOrder) == 0 {
+		if len(order) == 0 {
 			c.Note(rule, name+"/-", f.Pos(), "no index or slice expressions")
 		}
-		for _, k := range a.obOrder {
-			ob := a.obs[k]
-			key := name + "/" + ob.expr
+		unreached := ""
+		if opt.Unreached != nil && !c.fixtureMode {
+			unreached = opt.Unreached(f)
+		}
+		for _, k := range order {
+			m := obs[k]
+			key := name + "/" + m.ob.expr
+			full := FuncName(f) + "/" + m.ob.expr
 			switch {
-			case len(ob.fails) == 0:
-				c.Ok(rule, key, ob.pos, fmt.Sprintf("in range on every path (%d SSA sites)", ob.count))
-			case bndExceptions[FuncName(f)+"/"+ob.expr] != "" && !c.fixtureMode:
-				c.Exc(rule, key, ob.pos, bndExceptions[FuncName(f)+"/"+ob.expr])
+			case len(m.fails) == 0:
+				c.Ok(rule, key, m.ob.pos, fmt.Sprintf("in range on every path (%d SSA sites)", m.count))
+			case bndExceptions[full] != "" && !c.fixtureMode:
+				c.Exc(rule, key, m.ob.pos, bndExceptions[full])
+			case opt.Exceptions[full] != "" && !c.fixtureMode:
+				c.Exc(rule, key, m.ob.pos, opt.Exceptions[full])
+			case unreached != "":
+				c.Exc(rule, key, m.ob.pos, unreached)
 			default:
-				c.Bad(rule, key, ob.pos, fmt.Sprintf("%s: %s may be out of range: no dominating comparison bounds it by the length of its operand", name, ob.expr), ob.fails...)
+				hint := ""
+				if opt.Strict {
+					hint = " (machine-integer semantics: the operands may be any 64-bit value, so a sum, difference or negation that is not provably free of overflow bounds nothing)"
+				}
+				c.Bad(rule, key, m.ob.pos, fmt.Sprintf("%s: %s may be out of range: no dominating comparison bounds it by the length of its operand%s", name, m.ob.expr, hint), m.fails...)
 			}
 		}
 	}
-	c.Assumptions = bndAppendUnique(c.Assumptions, "bounds engine: int/uint/int64/uint64 index arithmetic is assumed not to wrap; struct fields never assigned outside composite literals in the loaded module are read as stable")
+	c.Assumptions = bndAppendUnique(c.Assumptions, "bounds engine: struct fields never assigned outside composite literals in the loaded module (or assigned only through a different enclosing object type) are read as stable")
+	c.Assumptions = bndAppendUnique(c.Assumptions, "bounds engine: standard-library contracts are taken as stated (io.Reader.Read returns 0 <= n <= len(p); strings.Index results; strconv.FormatInt and time.Time.String lengths); the result of a call through an interface declared in the module is the join over every concrete method of the loaded program with that name and signature")
+	if opt.Strict {
+		c.Assumptions = bndAppendUnique(c.Assumptions, "bounds engine (strict mode): 64-bit integer arithmetic wraps; a sum, difference or negation is related to its operands only where it provably does not overflow; no string or slice is longer than 2^40 elements")
+	} else {
+		c.Assumptions = bndAppendUnique(c.Assumptions, "bounds engine: int/uint/int64/uint64 index arithmetic is assumed not to wrap")
+	}
 }
 
 func bndAppendUnique(ss []string, s string) []string {
